@@ -374,10 +374,36 @@ def float_json(text: str):
     return cjson(float(text))
 
 
-def fn_body(ins, perm, reqs=()):
-    """The real Dfg for the recipe ["@fndfg", ins, perm, reqs] -> Hugr."""
+def fn_outs(s):
+    """Output row (type specs) of the body signature of the recipe ["@fndfg", ins, perm, reqs, root?]:
+    root "dfg" (default) / "func": the inputs permuted; root "loop": a standalone `TailLoop(just_inputs=ins)`
+    whose body continues with all its inputs: [Sum([ins, []])]."""
+    root = s[4] if len(s) > 4 else "dfg"
+    if root == "loop":
+        return [["@sum", [list(s[1]), []]]]
+    return [s[1][i] for i in s[2]]
+
+
+def fn_body(ins, perm, reqs=(), root="dfg"):
+    """The real builder's HUGR for the recipe ["@fndfg", ins, perm, reqs, root?] -> Hugr."""
     from hugr.build.dfg import Dfg
 
+    if root == "func":
+        from hugr.build.function import Function
+
+        f = Function("fv", [build_type(t) for t in ins])
+        inputs = f.inputs()
+        f.set_outputs(*[inputs[i] for i in perm])
+        return f.hugr
+    if root == "loop":
+        from hugr import ops, tys
+        from hugr.build.cond_loop import TailLoop
+
+        its = [build_type(t) for t in ins]
+        tl = TailLoop(its, [])
+        c = tl.add(ops.Continue(tys.Either(its, []))(*tl.inputs()))
+        tl.set_loop_outputs(c)
+        return tl.hugr
     d = Dfg(*[build_type(t) for t in ins])
     if reqs:
         d.parent_op._extension_delta = list(reqs)
@@ -418,7 +444,7 @@ def build_value(s):
 
         return val.Function(Hugr._from_serial(SerialHugr(**s[4][1])))
     if k == "@fndfg":
-        return val.Function(fn_body(s[1], s[2], s[3] if len(s) > 3 else ()))
+        return val.Function(fn_body(s[1], s[2], s[3] if len(s) > 3 else (), s[4] if len(s) > 4 else "dfg"))
     if k == "@vext":
         return val.Extension(s[1], build_type(s[2]), s[3][1], list(s[4]))
     if k == "@some":
@@ -504,7 +530,8 @@ def value_to_sx(s):
         return [A("vfn"), ts(s[1]), ts(s[2]), list(s[3]), value_to_sx(s[4]) if s[4] == "@body" else cjson_sx(s[4][1])]
     if k == "@fndfg":
         reqs = list(s[3]) if len(s) > 3 else []
-        return [A("vfn"), ts(s[1]), ts([s[1][i] for i in s[2]]), reqs, cjson_sx(_hugr_json(fn_body(s[1], s[2], reqs)))]
+        return [A("vfn"), ts(s[1]), ts(fn_outs(s)), reqs,
+                cjson_sx(_hugr_json(fn_body(s[1], s[2], reqs, s[4] if len(s) > 4 else "dfg")))]
     if k == "@vext":
         return [A("vext"), s[1], spec_to_sx(s[2]), cjson_sx(s[3][1]), list(s[4])]
     if k == "@some":
@@ -716,7 +743,8 @@ def gen_value_of(rng, t, depth=3):
             perm.append(j)
         else:
             if len(perm) == len(ins):
-                return ["@fndfg", ins, perm, []]
+                r = rng.random()
+                return ["@fndfg", ins, perm, []] if r < 0.6 else ["@fndfg", ins, perm, [], "func"]
     return ["@vext", rng.choice(["c", "Const", "名"]), t, ["@json", rng.choice(PAYLOADS)], [rng.choice(EXTS) for _ in range(rng.randint(0, 2))]]
 
 
